@@ -83,6 +83,7 @@ def judge_factory(rec, cfg):
     content_of = {}       # pallet -> ids it carries (as last observed at a put / get)
     events = sorted(pack_drop_events + [(m[0], 0, m + (rec.move_content[mi],)) for mi, m in enumerate(rec.moves)] + [(ai, 1, (ai, rec.acts[ai]["t"], "drop", None, it, nid)) for ai, (nid, it) in drops.items()],
                     key=lambda x: (x[0], x[1]))
+    fifo_inside = {}; fifo_flagged = {}
     for _, _, ev in events:
         (step, t, kind, e, item, nid) = ev[:6]
         content = ev[6] if len(ev) > 6 else ()
@@ -108,10 +109,20 @@ def judge_factory(rec, cfg):
             where[item] = ("edge", e); edge_in[e] += 1
             held[nid] = [(i, s) for (i, s) in held[nid] if i != item]
             put_by[nid].append((item, t, e))
+            fifo_inside.setdefault(e, []).append(item)
         else:
             loc = where.get(item)
             if loc != ("edge", e):
                 v("C03", "duplicated", f"item {item} taken from edge {e} while it is at {loc}")
+            # C06 seen from the factory: a FIFO Buffer with one constant delay hands its items over in the order they were put
+            # (every consumer uses a granted reservation at once, one per in-edge at a time; a released item goes back in front)
+            q_ = fifo_inside.get(e, [])
+            ek, eobj, ecfg = rec.edges[e]
+            if item in q_:
+                if ecfg.get("mode", "FIFO") == "FIFO" and "delays" not in ecfg and q_[0] != item and not fifo_flagged.get(e):
+                    fifo_flagged[e] = True
+                    v("C06", "fifo-overtake", f"node {nid} took item {item} from FIFO buffer {e} at t={t} while item {q_[0]}, put earlier, is still inside")
+                q_.remove(item)
             where[item] = ("node", nid); edge_in[e] -= 1
             got_by[nid].append((item, t, e))
             if kinds[nid] == "sink": received[nid].append((item, t))
@@ -218,6 +229,9 @@ def judge_factory(rec, cfg):
                         if d != pdisc + 1 or (pushes and kind == "source") or (kind == "machine" and spawned):
                             v("C09", "no-discard-when-full", f"non-blocking {kind} {nid}: no permitted out-edge had room at t={a['t']} "
                                                               f"but the item was not dropped (discard count {pdisc} -> {d}, push started: {bool(spawned)})")
+                    if c.get("out", "FIRST_AVAILABLE") != "FIRST_AVAILABLE" and len(cans) > 1:
+                        v("C09", "probed-unselected", f"non-blocking {kind} {nid} at t={a['t']}: its policy selects ONE out-edge, yet it probed {[x.split()[1] for x in cans]}: "
+                                                      f"the item must be pushed to the selected edge if that has room and dropped otherwise")
                     for p in spawned: spawn_t[p] = a["t"]
                 elif d > pdisc + 0 and d != pdisc:
                     v("C09", "discard-without-probe", f"non-blocking {kind} {nid}: discard count rose without a can_put probe")
@@ -337,6 +351,14 @@ def judge_factory(rec, cfg):
         ts = [a["t"] for a in acts]
         if any(b < a for a, b in zip(ts, ts[1:])):
             v("C19", "time", f"node {nid} observed decreasing time")
+        # ... and the time a node publishes (stats["last_state_change_time"]) never goes back and never lies ahead of the kernel clock
+        lasts = [(a["t"], a["stats"]["last"]) for a in acts if a["stats"] is not None and a["stats"].get("last") is not None]
+        for (t1, l1), (t2, l2) in zip(lasts, lasts[1:]):
+            if l2 < l1:
+                v("C19", "published-time-backwards", f"{kind} {nid}: last_state_change_time read {l1} at t={t1} and {l2} at t={t2}: the time it publishes went backwards"); break
+        for (t1, l1) in lasts:
+            if l1 > t1:
+                v("C19", "published-time-ahead", f"{kind} {nid}: last_state_change_time {l1} at kernel time {t1}"); break
     return V
 
 def judge_pack_node(rec, nid, kind, n, c, acts, put_by, got_by, emit, pending, where, v):
